@@ -25,46 +25,69 @@ func (h hostMarsh) MarshalJSON() ([]byte, error) {
 	panic(h.v)
 }
 
-type vmfailExpect struct{ name, src, want string }
+type vmfailExpect struct {
+	name, src, want string
+	args            []ugo.Object
+}
 
 var vmfailExpects = []vmfailExpect{
 	{"acquired-invoker-callee-catch", `global (invAcq, hostPanic)
-return invAcq(func() { try { hostPanic() } catch e { return "inner" }; return "none" })`, `inner`},
+return invAcq(func() { try { hostPanic() } catch e { return "inner" }; return "none" })`, `inner`, nil},
 	{"plain-invoker-callee-catch", `global (invPlain, hostPanic)
-return invPlain(func() { try { hostPanic() } catch e { return "inner" }; return "none" })`, `inner`},
+return invPlain(func() { try { hostPanic() } catch e { return "inner" }; return "none" })`, `inner`, nil},
 	{"acquired-invoker-caller-catch", `global (invAcq, hostPanic)
 try { invAcq(func() { hostPanic(); return "none" }) } catch e { return "outer" }
-return "not thrown"`, `outer`},
+return "not thrown"`, `outer`, nil},
 	{"strings-map-callee-catch", `global hostPanic
 strings := import("strings")
-return strings.Map(func(c) { try { hostPanic() } catch e { return 'x' }; return c }, "ab")`, `xx`},
+return strings.Map(func(c) { try { hostPanic() } catch e { return 'x' }; return c }, "ab")`, `xx`, nil},
 	{"strings-map-caller-catch", `global hostPanic
 strings := import("strings")
 try { strings.Map(func(c) { if c == 'b' { hostPanic() }; return c }, "ab") } catch e { return "outer" }
-return "not thrown"`, `outer`},
+return "not thrown"`, `outer`, nil},
 	{"strings-trimfunc-panic-on-first-rune", `global hostPanic
 strings := import("strings")
-try { return strings.TrimFunc("x abc", func(c) { if c == 'x' { hostPanic() }; return false }) } catch e { return "outer" }`, `outer`},
+try { return strings.TrimFunc("x abc", func(c) { if c == 'x' { hostPanic() }; return false }) } catch e { return "outer" }`, `outer`, nil},
 	{"strings-trimfunc-throw-on-first-rune", `strings := import("strings")
-try { return strings.TrimFunc("x abc", func(c) { if c == 'x' { throw "t" }; return false }) } catch e { return "outer" }`, `outer`},
+try { return strings.TrimFunc("x abc", func(c) { if c == 'x' { throw "t" }; return false }) } catch e { return "outer" }`, `outer`, nil},
 	{"strings-trimleftfunc-panic", `global hostPanic
 strings := import("strings")
-try { return strings.TrimLeftFunc("x abc", func(c) { if c == 'x' { hostPanic() }; return false }) } catch e { return "outer" }`, `outer`},
+try { return strings.TrimLeftFunc("x abc", func(c) { if c == 'x' { hostPanic() }; return false }) } catch e { return "outer" }`, `outer`, nil},
 	{"strings-indexfunc-panic", `global hostPanic
 strings := import("strings")
-try { return strings.IndexFunc("abc", func(c) { if c == 'b' { hostPanic() }; return false }) } catch e { return "outer" }`, `outer`},
+try { return strings.IndexFunc("abc", func(c) { if c == 'b' { hostPanic() }; return false }) } catch e { return "outer" }`, `outer`, nil},
 	{"strings-fieldsfunc-panic", `global hostPanic
 strings := import("strings")
-try { return strings.FieldsFunc("a b", func(c) { if c == 'b' { hostPanic() }; return c == ' ' }) } catch e { return "outer" }`, `outer`},
+try { return strings.FieldsFunc("a b", func(c) { if c == 'b' { hostPanic() }; return c == ' ' }) } catch e { return "outer" }`, `outer`, nil},
 	{"json-marshaler-panics-string", `global mString
 json := import("json")
-try { return string(json.Marshal({a: 1, b: mString})) } catch e { return "outer" }`, `outer`},
+try { return string(json.Marshal({a: 1, b: mString})) } catch e { return "outer" }`, `outer`, nil},
 	{"json-marshaler-panics-error", `global mError
 json := import("json")
-try { return string(json.Marshal([1, mError])) } catch e { return "outer" }`, `outer`},
+try { return string(json.Marshal([1, mError])) } catch e { return "outer" }`, `outer`, nil},
+	// a panic raised in a finally block after the try block completed normally is outside the statement's own
+	// catch: it reaches the ENCLOSING handler, and the finally block runs once
+	{"panic-in-finally-after-normal-try", `global hostPanic
+log := []
+try {
+	try { log = append(log, "try") } catch e { log = append(log, "inner-catch") } finally { log = append(log, "finally"); hostPanic() }
+} catch e2 { log = append(log, "outer-catch") }
+return log`, `["try", "finally", "outer-catch"]`, nil},
+	{"throw-in-finally-after-normal-try", `log := []
+try {
+	try { log = append(log, "try") } catch e { log = append(log, "inner-catch") } finally { log = append(log, "finally"); throw "f" }
+} catch e2 { log = append(log, "outer-catch") }
+return log`, `["try", "finally", "outer-catch"]`, nil},
+	// main's parameters are bound leniently for every argument count, also below the number of fixed
+	// parameters of a variadic main (the binding runs before the recover is armed)
+	{"variadic-main-one-arg", "param (a, b, ...c)\nreturn [a, b, c]", `[1, undefined, []]`, []ugo.Object{ugo.Int(1)}},
+	{"variadic-main-no-arg", "param (a, b, ...c)\nreturn [a, b, c]", `[undefined, undefined, []]`, []ugo.Object{}},
+	{"variadic-main-exact", "param (a, b, ...c)\nreturn [a, b, c]", `[1, 2, []]`, []ugo.Object{ugo.Int(1), ugo.Int(2)}},
+	{"variadic-main-more", "param (a, b, ...c)\nreturn [a, b, c]", `[1, 2, [3, 4]]`, []ugo.Object{ugo.Int(1), ugo.Int(2), ugo.Int(3), ugo.Int(4)}},
+	{"variadic-main-three-fixed-two-args", "param (a, b, d, ...c)\nreturn [a, b, d, c]", `[1, 2, undefined, []]`, []ugo.Object{ugo.Int(1), ugo.Int(2)}},
 	{"json-marshaler-panics-object", `global mObject
 json := import("json")
-try { return string(json.MarshalIndent(mObject, "", " ")) } catch e { return "outer" }`, `outer`},
+try { return string(json.MarshalIndent(mObject, "", " ")) } catch e { return "outer" }`, `outer`, nil},
 }
 
 func vmfailExpectOracle(c *Ctx) {
@@ -101,7 +124,7 @@ func vmfailExpectOracle(c *Ctx) {
 						got = fmt.Sprintf("ESCAPED PANIC: %v", r)
 					}
 				}()
-				ret, err := ugo.NewVM(bc).SetRecover(true).Run(globals())
+				ret, err := ugo.NewVM(bc).SetRecover(true).Run(globals(), p.args...)
 				if err != nil {
 					got = "run error: " + semFirstLine(err.Error())
 					return
